@@ -347,6 +347,8 @@ pub fn c01_case(g: &mut Gen, id: u64, w: &mut impl Write, long: bool) {
     let nrooms = 2 + g.below(2) as u64;
     let mut shadows: Vec<Shadow> = (0..nrooms).map(|_| new_shadow(false)).collect();
     let mut d: i64 = 1;
+    // keys that were given a right in each room (members of a group that grants something)
+    let mut writers: Vec<Vec<u64>> = vec![vec![]; nrooms as usize];
     // room definitions by key 1 (sometimes key 2 creates its own room)
     for r in 0..nrooms {
         let me = if r > 0 && g.chance(1, 4) { 2 } else { 1 };
@@ -371,7 +373,10 @@ pub fn c01_case(g: &mut Gen, id: u64, w: &mut impl Write, long: bool) {
             )
             .unwrap();
             shadows[r as usize].groups[0].insert(gi);
+            writers[r as usize].push(u1 as u64);
+            writers[r as usize].push(u2 as u64);
         }
+        writers[r as usize].push(me);
     }
     let steps = if long { 14 + g.below(14) } else { 8 + g.below(10) };
     // shadow of the data: handle -> (entity, room?, author), references
@@ -385,6 +390,17 @@ pub fn c01_case(g: &mut Gen, id: u64, w: &mut impl Write, long: bool) {
             Some(g.below(nrooms as usize) as u64)
         }
     };
+    // a few rows to work on, created by keys that hold a right
+    d += 1;
+    for _ in 0..(2 + g.below(3)) {
+        let room = g.below(nrooms as usize) as u64;
+        let k = *g.pick(&writers[room as usize]);
+        let e = if g.chance(2, 3) { 1 } else { 1 + g.below(3) };
+        let h = next_handle;
+        next_handle += 1;
+        writeln!(w, "new k={} d={} h={} e={} room={} v={}", k, d, h, e, room, g.below(90)).unwrap();
+        rows.push((h, e, Some(room), k));
+    }
     for _ in 0..steps {
         if g.chance(2, 3) && d < dmax {
             d += 1 + g.below(2) as i64;
@@ -399,6 +415,10 @@ pub fn c01_case(g: &mut Gen, id: u64, w: &mut impl Write, long: bool) {
                 // create
                 let e = 1 + g.below(3);
                 let room = pick_room(g);
+                let k = match room {
+                    Some(r) if g.chance(2, 3) => *g.pick(&writers[r as usize]),
+                    _ => k,
+                };
                 let h = next_handle;
                 next_handle += 1;
                 let rs = room.map(|r| format!(" room={}", r)).unwrap_or_default();
